@@ -7,7 +7,8 @@ EXPLANATION = ("C04: in req0_recv_cb delivery is dominated by the id lookup and 
                "removal; req0_ctx_reset retires the id whenever one is registered; a new send resets before allocating; "
                "cancel paths reset; state errors are answered before anything is parked; rep0 captures backtrace and pipe "
                "before handing the request up and clears them on every path of a send; raw xrep routes by the popped "
-               "header word only after the length test; the backtrace loops of rep/xrep obey the shared hop-loop facts.")
+               "header word only after the length test; the backtrace loops of rep/xrep obey the shared hop-loop facts."
+               " Also: cooked send slots clear the header before they compose it (R2); an id is removed from its map with the live value, not after the field was zeroed (R7).")
 
 
 def is_call(name):
